@@ -714,14 +714,14 @@ static void fam_deep() {
 //  (b) string values whose ENCODED frame content is exactly {255,256,257,65535,65536,65537,70000 (+2^24 at level 1)} bytes, ending in
 //      'a' / an escaped quote / an escaped backslash, as request params and as response result, x 3 protos: round trip equal;
 //      followed by a second (small) frame: two messages, everything consumed;
-//      stream framings: 2-segment splits at every boundary-ish cut and fixed chunk sizes {255,256,4096} (+1 for frames <= 300 bytes).
+//      stream framings: 2-segment splits at every boundary-ish cut and fixed chunk sizes {255,256,4096} (+1 for frames <= 400 bytes; {65536,2^20} for the 2^24 frame).
 static std::string big_desc(int proto, const char *what, size_t content, const char *tail) { return fmt("proto=%s %s frame_content_bytes=%zu string_tail=%s", PN[proto], what, content, tail); }
 static void fam_big() {
   std::vector<int> ids = {1, 127, 128, 255, 256, 32767, 32768, 65535, 65536, INT_MAX, -1, -128, -129, -32768, -32769, INT_MIN};
   std::vector<size_t> targets = {255, 256, 257, 65535, 65536, 65537, 70000}; if (g_level) targets.push_back((size_t)1 << 24);
   static const char *TAILN[3] = {"plain", "escaped-quote", "escaped-backslash"}; static const char *TAIL[3] = {"a", "\"", "\\"};
   printf("@INFO big: %zu ids x {request,result,error} x 3 protos; frame content sizes {", ids.size()); for (size_t t : targets) printf("%zu,", t);
-  printf("} x 3 string tails x {request,result} x 3 protos: round trip, + second frame, 2-segment splits at boundary cuts, chunk sizes {1 (<=300 bytes),255,256,4096}, part %d/%d\n", g_part, g_nparts);
+  printf("} x 3 string tails x {request,result} x 3 protos: round trip, + second frame, 2-segment splits at boundary cuts, chunk sizes {1 (<=400 bytes),255,256,4096} ({65536,2^20} for the 2^24 frame), part %d/%d\n", g_part, g_nparts);
   long n = 0;
   // (a) ids
   if ((int)(n++ % g_nparts) == g_part) run_batch([&] {
@@ -784,7 +784,7 @@ static void fam_big() {
           Feed f = feed(rx, stream, e, 2);
           if (!same(f, want2)) { ok = false; add_viol(cls + (f.threw ? "-segmented-throws" : "-segmented-decodes-differently-from-unsegmented"), rep + fmt(" + small frame, seg_ends=[%zu,%zu]", c, L) + brief(f) + (f.threw ? " what=" + f.what : "")); break; } }
         std::vector<size_t> chunks = {255, 256, 4096}; if (L <= 400) chunks.push_back(1);
-        if (k == RAW && target > 100000) chunks = {65536};           // (the raw framing rescans the buffer on every call: keep the 2^24 case linear enough)
+        if (target > 100000) chunks = {65536, (size_t)1 << 20};      // (a caller re-presents the whole unconsumed buffer on every call: small chunks of a 2^24-byte frame are quadratic)
         for (size_t c : chunks) { if (!ok) break; std::vector<size_t> ends; for (size_t q = c; q < L; q += c) ends.push_back(q); ends.push_back(L);
           S->executions++; for (int i = 0; i < 4; i++) S->cut[i] = -1; S->cut[0] = -(long)c - 1;
           Feed f = feed(rx, stream, ends.data(), (int)ends.size());
